@@ -793,6 +793,11 @@ func (c *Context) Ln(d, x *Decimal) (Condition, error) {
 
 			ed.Add(&tmp1, &tmp1, &tmp4)
 
+			// Once an error is latched the steps above are skipped and the
+			// term never shrinks; stop instead of looping forever.
+			if err := ed.Err(); err != nil {
+				return 0, err
+			}
 			if tmp4.Abs(&tmp4).Cmp(&eps) <= 0 {
 				break
 			}
